@@ -29,8 +29,8 @@ ANY_ARROW_TEXT = r"(-?|\w+-)"
 NON_EMPTY_STRING = ".+"
 COMPONENT_MARKER = "component"
 NON_EMPTY_WHITESPACE = r"\s+"
-NON_EMPTY_CHAR_OR_DIGIT = r"(\w|\d)+"
-NON_EMPTY_CHAR_OR_DIGIT_OR_WHITESPACE = r"(\w|\d|\s)+"
+NON_EMPTY_CHAR_OR_DIGIT = r"(\w|\d|\.)+"
+NON_EMPTY_CHAR_OR_DIGIT_OR_WHITESPACE = r"(\w|\d|\.|\s)+"
 START_LINE = "^"
 END_LINE = "$"
 BRACKET_OPEN = r"\["
